@@ -21,7 +21,7 @@ func c12UsageCheck(t vh.Fataler, rec *vh.Rec, e *C12Env, u C12UsageCase) {
 func TestVerif_C12_usage(t *testing.T) {
 	rec := vh.NewRec("C12", "usage", "rapid-generated registrar configurations (1-4 weighted override subnets per transport, weights 1-3, optional zero-weight and foreign-transport entries, any order, 100 % override, no exclusion hit) x 400 derived requests per transport through RegisterBidirectional; every subnet with a non-zero weight must be chosen at least once; non-trivial = some transport has >= 2 weighted subnets; distinct by configuration")
 	defer rec.Flush()
-	rec.Require("several-weighted-subnets")
+	rec.Require("several-weighted-subnets", "zero-weight-before-all-weighted", "zero-weight-before-a-weighted", "zero-weight-last")
 	e := C12NewEnv(t)
 	if p := vh.ReplayFile(); p != "" {
 		var u C12UsageCase
